@@ -222,17 +222,21 @@ CHECKS["C10"] = {
   "text": "Theorems for every command list and every clock schedule over a Lean model of history.rs/undo.rs/id_resolver.rs and the "
           "head and tail of apply_plan (any tree side): entries are only ever appended (prefix property), exactly one entry with "
           "an id not yet present per successful command, a rejected command changes nothing, a rename/redo whose id is already "
-          "present changes nothing, a redo succeeds at most once per id, the implementation's eligibility scans imply the "
-          "abstract applied/undone status; refinement to an abstract history under the explicit guard G10 (no partial apply, "
-          "undo/redo in place), two kernel-evaluated witnesses outside it, and the four repaired defects as theorems about the "
-          "code before the repairs. The model is compared step by step (exit class, history shape, whole tree) with the real "
-          "CLI on exhaustively enumerated and random command sequences run under an LD_PRELOAD fake clock, and an independent "
-          "runner-side abstract history judges every step.",
+          "present changes nothing, a redo succeeds at most once per id, an undo or redo that does not succeed changes nothing "
+          "(after any command sequence), the implementation's eligibility scans imply the abstract applied/undone status; "
+          "refinement to an abstract history under the explicit guard G10 (no partial apply of a rename, undo/redo in place); "
+          "the six repaired defects as theorems about the code before each repair next to what the same sequence does now. "
+          "The model is compared step by step (exit class, history shape, whole tree) with the real CLI on exhaustively "
+          "enumerated command sequences, same-second undo/redo bursts by `latest` and by id, and random sequences, all run under "
+          "an LD_PRELOAD fake clock, and an independent runner-side abstract history judges every step.",
   "design_ref": "DESIGN.md section 4, C10",
   "technique": "Lean 4 proof (induction over command lists, invariant-based refinement) + CLI sequence correspondence under a fake clock + abstract-history oracle",
   "note": TB + "tree side of the refinement theorem is a parameter with the undo round-trip law as hypothesis (proved for the flat-file "
           "instance used by the driver); plan-id hash modelled as injective on (concatenated terms, second); path renames, --commit, "
-          "unparsable history.json (C11) and the lock (C12) not modelled; the four safety checks (early id check, redo-once, undo/redo pre-validation) are read from apply.rs/undo.rs by translate/history_flags.py into Gen/HistoryFlags.lean and the executable model follows them; workspaces git-ignore .renamify (C09's finding kept out).",
+          "unparsable history.json (C11) and the lock (C12) not modelled; the shape of the code (early id check, redo-once, undo/redo "
+          "pre-validation, plan stored before the history entry, what the revert id is built on) is read from apply.rs/undo.rs by "
+          "translate/history_flags.py into Gen/HistoryFlags.lean, the executable model follows it and `current_shape` pins it; "
+          "workspaces git-ignore .renamify (C09's finding kept out).",
 }
 CHECKS["C04"] = {
   "text": "Operation-level Lean model of rename/apply/redo/replace/undo (RModel/Model/Exec.lean): every mutating libc call goes through "
@@ -285,11 +289,11 @@ CHECKS["C16"] = {
           "line_after, the resolver prefix, the diff/colour renderers slice safely for every line and column; "
           "replace_case_insensitive terminates without panic for every lower-casing, text and pattern; apply never panics for any "
           "content and edit list (stale, overlapping, out of range); lock age, the upper-case run check, the literal search loop, "
-          "the JSON plan value and the acronym trie walk are total; the tokenizer's index arithmetic stays in range; the exit-status "
+          "the JSON plan value, the `$N` capture-group expansion of `replace` and the acronym trie walk are total; the tokenizer's index arithmetic stays in range; the exit-status "
           "table of main.rs stays within {0,1,2,3,130}. The shapes before the nine fix commits are kept as `...Old` with "
           "kernel-evaluated before-fix witnesses. Every potentially panicking site of the non-test code (clippy inventory, "
           "regenerated each run) must be classified; panic/no-panic of the real functions is compared with the model in-process; "
-          "the recorded inputs of the repaired defects and a fixed set of hand-edited plans with overlapping-but-different hunks (nested, straddling, same start/end, enclosing, adjacent, reversed, same range with another replacement) run first as regression cases; an in-process disagreement is replayed through the CLI at once (tree + plan.json / arguments) so that a concrete failing command line is reported; a CLI stream of hostile trees, names, "
+          "the recorded inputs of the repaired defects and a fixed set of hand-edited plans with overlapping-but-different hunks (nested, straddling, same start/end, enclosing, adjacent, reversed, same range with another replacement) and fixed `replace` cases with optional / alternation / named / never-matching capture groups and `$N ${name} $$` replacements run first as regression cases; the inventory also lists `base[index]` expressions clippy does not report (Index impls on non-slice types such as regex::Captures, and code compiled out by cfg); an in-process disagreement is replayed through the CLI at once (tree + plan.json / arguments) so that a concrete failing command line is reported; a CLI stream of hostile trees, names, "
           "terms, option sets, stale plans and workspace state checks status, stderr and termination - any panic, signal, "
           "undocumented status or non-termination is a violation with the case as replay.",
   "design_ref": "DESIGN.md section 4, C16",
@@ -342,7 +346,8 @@ CHECKS["C13"] = {
           "on every run and pinned by named theorems. The real binary is run with SIGINT/SIGTERM (once and three times) raised "
           "immediately before each mutating call of rename, apply, undo, redo and replace on a scenario family, with an independent "
           "oracle (tree in {before, complete}, history entry iff complete, lock released, status), rename's and replace's prompts "
-          "through a pty, and a self-failing command plus signal. The three behaviours repaired by d01db83 / 279b830 are violations "
+          "through a pty (signal at the prompt, and — prompt answered y — raised before every mutating call of the apply phase "
+          "that follows it), and a self-failing command plus signal. The three behaviours repaired by d01db83 / 279b830 are violations "
           "if they return.",
   "design_ref": "DESIGN.md section 4, C13",
   "technique": "Lean 4 proof (induction over runs = programs with interleaved signal events) + generated handler facts + "
@@ -366,7 +371,11 @@ CHECKS["C14"] = {
           "entries, and on a family of confusable files (groups of 2..6 files >= 4 KiB with equal length, equal first/last 2 KiB, "
           "equal mtime, same names in different directories, identical copies and one-byte variants, whose dominant identifier "
           "styles differ) where every multi-thread plan is compared with the 1-thread plan and, per file, with the plan of that "
-          "file alone. The lock / .renamify write of rename --dry-run repaired by 055e350 is a violation if it returns.",
+          "file alone; `plan` with 2..5 explicit, permuted, nested, repeated and overlapping search roots is compared as a full "
+          "document including the ORDER of `paths` across >= 6 separate processes per thread count. For the rename list the "
+          "theorems state what can hold: its comparator ties on equal-depth directories (rename_order_ties), ties keep walk order "
+          "(stable sort), files are sorted by path, the cross-root de-duplication never reorders, and the generated facts pin that "
+          "the list never passes through a hash container. The lock / .renamify write of rename --dry-run repaired by 055e350 is a violation if it returns.",
   "design_ref": "DESIGN.md section 4, C14",
   "technique": "Lean 4 proof (permutation invariance of sorting; frame reasoning over effect lists) + generated gate/shape tables + "
                "written-path log and snapshots under the shim + cross-thread-count differential",
@@ -432,4 +441,4 @@ CHECKS["C15"] = {
 }
 
 _W = "check built and passing before the latest repo fix commits; temporarily withdrawn while its Lean model is updated to the repaired code"
-PENDING.update({"C10": _W})
+PENDING.update({})
